@@ -259,7 +259,7 @@ def execute(plan, seed=0):
         kinds_seen.append(k + ("!" if op.get("fault") else ""))
         # validity of the candidate plan (after shrinking an op may refer to a retired/missing array)
         refs = [op[x] for x in ("arr", "a", "b") if x in op]
-        if any(x not in real for x in refs) or ("out" in op and op["out"] in real):
+        if any(x not in real for x in refs) or ("out" in op and op["out"] in real) or (k in ("concat", "combine") and op["a"] == op["b"]):
             res.notes["invalid_plan"] = 1
             d = res.finish(tr)
             return _Invalid(res)
